@@ -100,3 +100,28 @@ def sync_check():
 
 if __name__ == "__main__":
     print(sync_check() or "in sync")
+
+
+def cannot_throw():
+    """Opcodes whose handler `operation` has NO result type (returns `()`): such a handler has no error path,
+    so no exceptional edge leaves the instruction.  Derived from the CURRENT handler sources on every run;
+    anything not positively identified is treated as may-throw (conservative)."""
+    base = os.path.join(REPO, "core/engine/src/vm/opcode")
+    out = set()
+    for root, _d, files in os.walk(base):
+        for fn in files:
+            if not fn.endswith(".rs"):
+                continue
+            src = open(os.path.join(root, fn)).read()
+            for m in re.finditer(r"(?s)\nimpl (\w+) \{(.*?)\n\}\n", src):
+                name, body = m.group(1), m.group(2)
+                mm = re.search(r"(?s)fn operation\s*\((.*?)\)\s*(->\s*([^{]+?))?\s*\{", body)
+                if not mm:
+                    continue
+                ret = (mm.group(3) or "").strip()
+                if ret == "" or ret == "()":
+                    # must also not raise through the context by hand
+                    if "pending_exception" in body or "handle_throw" in body or "handle_error" in body:
+                        continue
+                    out.add(name)
+    return out
